@@ -703,11 +703,43 @@ type outcome struct {
 	log    string
 }
 
+// addressing modes of the package under test: how it is named on the command line must not matter
+// (0: "." inside the directory; 1: "./inner" from the module root; 2: the import path; 3: "./...")
+func pkgDir(dir string, mode int) string {
+	if mode == 0 {
+		return dir
+	}
+	return filepath.Join(dir, "inner")
+}
+
+func goderiveAt(cfg hx.Config, dir string, mode int) hx.RunResult {
+	switch mode {
+	case 1:
+		return hx.Goderive(cfg.Goderive, dir, "./inner")
+	case 2:
+		return hx.Goderive(cfg.Goderive, dir, "p/inner")
+	case 3:
+		return hx.Goderive(cfg.Goderive, dir, "./...")
+	}
+	return hx.Goderive(cfg.Goderive, dir, ".")
+}
+
 func runIn(cfg hx.Config, dir string, v ver, old []byte, oldExists bool) outcome {
-	os.MkdirAll(dir, 0o755)
+	return runInMode(cfg, dir, 0, v, old, oldExists)
+}
+
+func runInMode(cfg hx.Config, dir string, mode int, v ver, old []byte, oldExists bool) outcome {
+	os.MkdirAll(pkgDir(dir, mode), 0o755)
 	hx.Module(dir)
-	os.WriteFile(filepath.Join(dir, "a.go"), []byte(v.src), 0o644)
-	gen := filepath.Join(dir, "derived.gen.go")
+	// scratch directories are reused with other modes: exactly one package may exist
+	if mode == 0 {
+		os.RemoveAll(filepath.Join(dir, "inner"))
+	} else {
+		os.Remove(filepath.Join(dir, "a.go"))
+		os.Remove(filepath.Join(dir, "derived.gen.go"))
+	}
+	os.WriteFile(filepath.Join(pkgDir(dir, mode), "a.go"), []byte(v.src), 0o644)
+	gen := filepath.Join(pkgDir(dir, mode), "derived.gen.go")
 	var g hx.RunResult
 	for attempt := 0; attempt < 3; attempt++ {
 		if oldExists {
@@ -715,7 +747,7 @@ func runIn(cfg hx.Config, dir string, v ver, old []byte, oldExists bool) outcome
 		} else {
 			os.Remove(gen)
 		}
-		g = hx.Goderive(cfg.Goderive, dir, ".")
+		g = goderiveAt(cfg, dir, mode)
 		if !g.TimedOut {
 			break // a 30 s timeout of a 10 ms run is the machine's load, not goderive: try again
 		}
@@ -879,7 +911,9 @@ func Run(cfg hx.Config) (*hx.Meta, error) {
 		for si, v := range h.vers {
 			sdir := filepath.Join(cfg.Work, fmt.Sprintf("hist%d-scratch%d", hi, si))
 			s := runIn(cfg, sdir, v, nil, false)
-			a := runIn(cfg, dir, v, prev.bytes, prev.exists)
+			mode := hi % 4
+			a := runInMode(cfg, dir, mode, v, prev.bytes, prev.exists)
+			col.meta.CountSafe(fmt.Sprintf("addressed/%s", []string{".", "./inner", "import-path", "./..."}[mode]))
 			col.observe(cfg, fmt.Sprintf("%s step %d (%s)", h.name, si, h.desc[si]), v, prev.bytes, prev.exists, a, s)
 			col.meta.CountSafe("edit/" + h.desc[si])
 			if s.exit != 0 {
@@ -891,7 +925,7 @@ func Run(cfg hx.Config) (*hx.Meta, error) {
 			}
 			if a.exit == 0 && s.exit == 0 {
 				// the result type-checks
-				if vet := hx.GoVet(dir, ""); vet.Exit != 0 {
+				if vet := hx.GoVet(pkgDir(dir, mode), ""); vet.Exit != 0 {
 					fs := files(v, prev.bytes, prev.exists)
 					fs["derived.gen.go (after the run)"] = string(a.bytes)
 					col.meta.AddDirect(hx.Direct{Class: "c07-vet-fails",
@@ -899,8 +933,8 @@ func Run(cfg hx.Config) (*hx.Meta, error) {
 						Files: fs, Cmd: "goderive . && go vet .", Output: hx.Truncate(vet.Out, 1500)})
 				}
 				// one run suffices: a second run changes nothing
-				g2 := hx.Goderive(cfg.Goderive, dir, ".")
-				b2, err2 := os.ReadFile(filepath.Join(dir, "derived.gen.go"))
+				g2 := goderiveAt(cfg, dir, mode)
+				b2, err2 := os.ReadFile(filepath.Join(pkgDir(dir, mode), "derived.gen.go"))
 				if g2.Exit != 0 || (err2 == nil) != a.exists || !bytes.Equal(b2, a.bytes) {
 					fs := files(v, prev.bytes, prev.exists)
 					fs["derived.gen.go (after run 1)"] = string(a.bytes)
@@ -929,7 +963,7 @@ func Run(cfg hx.Config) (*hx.Meta, error) {
 				jobsMu.Unlock()
 			}
 			// the next step starts from whatever is on disk now
-			b, err := os.ReadFile(filepath.Join(dir, "derived.gen.go"))
+			b, err := os.ReadFile(filepath.Join(pkgDir(dir, mode), "derived.gen.go"))
 			prev = outcome{exists: err == nil, bytes: b}
 		}
 	})
@@ -1025,7 +1059,7 @@ func Run(cfg hx.Config) (*hx.Meta, error) {
 		dir := <-dirs
 		defer func() { dirs <- dir }()
 		cut := j.src[:j.k]
-		a := runIn(cfg, dir, j.v, cut, true)
+		a := runInMode(cfg, dir, (i+j.k)%4, j.v, cut, true)
 		_, cls := classifyOld(cut, true, j.v)
 		col.meta.CountSafe("crash-point/" + j.which + "-output/" + cls)
 		col.observe(cfg, fmt.Sprintf("derived.gen.go = first %d bytes of the %s output", j.k, j.which), j.v, cut, true, a, j.s)
